@@ -67,7 +67,7 @@ func (c19) Meta() core.Meta {
 		Assumptions: []string{"a source that has returned an error keeps failing (sticky)", "runs of (0,nil) reads are bounded to 3 (an endless stall makes io.ReadFull itself spin)",
 			"an error delivered together with the last byte of the final draw may be either ignored or reported (io.ReadFull semantics)",
 			"the private-key output of GenerateKey on error is not judged (statement speaks of public key and signature)"},
-		FaultKinds: []string{"short", "stall", "err-EOF", "err-UnexpectedEOF", "err-custom", "err-*-with-some-bytes", "err-*-with-all-bytes", "sticky-err", "nil-reader"},
+		FaultKinds: []string{"short", "stall", "long-stall-read", "via-crypto/rand.Reader", "err-EOF", "err-UnexpectedEOF", "err-custom", "err-*-with-some-bytes", "err-*-with-all-bytes", "sticky-err", "nil-reader"},
 		ProbeNames: []string{"error_expected", "either_accepted", "success_expected", "rejected_prefix>=2", "solved_rejection"},
 		StepUnit:   "reader calls + library calls",
 	}
@@ -186,6 +186,7 @@ func (c19) Generate(idx int, r *core.Rand, tier string) core.Script {
 	f := r.Split("faults")
 	op := c19Ops[w.Intn(4)]
 	call := c19Call(op, w)
+	call.ViaGlobal = w.Chance(1, 6)
 	s := &c19Script{Call: call}
 	if op == "GenerateKey" && w.Chance(1, 40) {
 		s.NilReader = true
@@ -197,6 +198,9 @@ func (c19) Generate(idx int, r *core.Rand, tier string) core.Script {
 	}
 	if w.Chance(1, 150) { // a source that is stuck for a long time
 		R = w.Range(100, 300)
+		if w.Chance(1, 4) {
+			R = w.Range(1000, 3000)
+		}
 	}
 	cands, _ := c19Rejected(&s.Call, R, w, w.Chance(1, 2))
 	if w.Chance(1, 30) { // a degenerate candidate the key/nonce rules treat specially
@@ -206,12 +210,17 @@ func (c19) Generate(idx int, r *core.Rand, tier string) core.Script {
 	// swarm: which fault kinds are enabled in this run
 	enShort, enStall, enErr := f.Chance(3, 4), f.Chance(1, 2), f.Chance(4, 5)
 	steps := f.Range(1, 4*(R+1)+2)
+	if steps > 400 { // long rejected prefixes are about the loop, not about thousands of delivery faults
+		steps = f.Range(1, 400)
+	}
 	for i := 0; i < steps; i++ {
 		switch {
 		case enErr && f.Chance(1, 6):
 			s.Program = append(s.Program, rng.Step{Kind: "err", N: f.PickInt(0, 0, 1, 7, 16, 31, 32, f.Intn(33)), Err: c19Errs[f.Intn(3)]})
 		case enShort && f.Chance(1, 3):
 			s.Program = append(s.Program, rng.Step{Kind: "short", N: f.PickInt(1, 2, 8, 15, 16, 17, 31, f.Range(1, 31))})
+		case enStall && f.Chance(1, 40): // no progress for a long (finite) while
+			s.Program = append(s.Program, rng.Step{Kind: "longstall", N: f.PickInt(99, 100, 101, 150, 300, 1000)})
 		case enStall && f.Chance(1, 5):
 			s.Program = append(s.Program, rng.Step{Kind: "stall"})
 		default:
@@ -280,6 +289,9 @@ func (c19) Execute(sc core.Script, keep bool) *core.Result {
 		return res
 	}
 
+	if s.Call.ViaGlobal {
+		res.Faults["via-crypto/rand.Reader"]++
+	}
 	// 1. fault-free twin
 	twinDev := rng.New(s.Content, nil, nil)
 	var outs0 [][]byte
@@ -439,9 +451,9 @@ func (c19) Shrinks(sc core.Script) []core.Script {
 		return &c
 	}
 	// drop program steps
-	for i := range s.Program {
+	for _, rg := range core.DropRanges(len(s.Program)) {
 		c := cp()
-		c.Program = append(c.Program[:i], c.Program[i+1:]...)
+		c.Program = append(c.Program[:rg[0]], c.Program[rg[1]:]...)
 		out = append(out, c)
 	}
 	// simplify steps
@@ -463,9 +475,9 @@ func (c19) Shrinks(sc core.Script) []core.Script {
 		}
 	}
 	// drop candidates
-	for i := range s.Content.Candidates {
+	for _, rg := range core.DropRanges(len(s.Content.Candidates)) {
 		c := cp()
-		c.Content.Candidates = append(c.Content.Candidates[:i], c.Content.Candidates[i+1:]...)
+		c.Content.Candidates = append(c.Content.Candidates[:rg[0]], c.Content.Candidates[rg[1]:]...)
 		out = append(out, c)
 	}
 	// simpler entry point and arguments
